@@ -16,6 +16,8 @@ for rp in sorted(glob.glob(os.path.join(HERE, "seeded", "*", "replay_C*.txt"))):
     if os.path.exists(dst):
         continue
     txt = open(rp).read()
+    if len(txt) > 200000:
+        continue       # the huge oracle-only scenarios are generated on every run anyway
     if "no failing input" in txt or "\nscn " not in "\n" + txt or "Traceback" in txt:
         continue
     body = [l for l in txt.split("\n") if not l.startswith("#")]
